@@ -134,6 +134,7 @@ REQUIRED_IMPL_CLASSES = [
     "closest-exclude:stored-object-itself", "closest-exclude:fresh-object-with-that-id", "closest-k:default",
     "refresh-class:one", "refresh-class:few", "refresh-class:all", "refresh-class:none",
     "genid-pipeline-vs-cpython:overflow", "genid-pipeline-vs-cpython:in-range", "real-node-id:ipv4", "real-node-id:ipv6",
+    "community-op:request", "community-op:discover", "community-op:churn", "community-op:move", "community-op:move-self",
     "rtt:zero", "rtt:sub-millisecond", "rtt:sub-second", "rtt:one-second-or-more", "profile:deep", "profile:clustered",
 ]
 
@@ -1668,6 +1669,158 @@ def real_node_ids(ctx: Ctx):
     case(ctx, ("real-id",), nontrivial=True, n=60)
 
 
+# ---- the table inside the real DHTCommunity: state the table depends on must not be mutated from outside the table ------------
+def _table_view(routing, rt):
+    """an Impl around an existing RoutingTable (real Node ids from calc_node_id, own id as the table holds it now)"""
+    import collections
+    im = object.__new__(Impl)
+    im.routing, im.rt, im.fail = routing, rt, None
+    im.me = int.from_bytes(rt.my_node_id, "big")
+    im.m = routing.MAX_BUCKET_SIZE
+    im.stats = collections.Counter()
+    im.splits, im.rich_query, im.objs, im.ntag = 1, False, {}, 0
+    return im
+
+
+def run_community(rec: dict, counts=None):
+    """one history of a real DHTCommunity (MockIPv8, no network): signed requests of peers arrive through the packet
+    handler, peers are discovered, PingChurn steps run, peers change their address (NAT rebinding / roaming), our own
+    public address changes.  After every op every routing table of the overlay is judged like any other table, with the
+    nodes' REAL identifiers (calc_node_id of their current address) and the table's own id.  Returns (signature, what) or None."""
+    import asyncio
+    from ipv8.dht import routing
+    from ipv8.dht.churn import PingChurn
+    from ipv8.dht.community import DHTCommunity
+    from ipv8.dht.payload import PingRequestPayload
+    from ipv8.keyvault.crypto import default_eccrypto
+    from ipv8.messaging.interfaces.udp.endpoint import UDPv4Address
+    from ipv8.peer import Peer
+    from ipv8.test.mocking.endpoint import AutoMockEndpoint, MockEndpoint
+    from ipv8.test.mocking.ipv8 import MockIPv8
+    install_clock(routing)
+    AutoMockEndpoint.SEND_INET_EXCEPTION_TO_LOOP = False
+
+    def key(i):
+        return default_eccrypto.key_from_private_bin(b"LibNaCLSK:" + (rec["key_seed"] * 1000 + i + 1).to_bytes(64, "big"))
+
+    async def main():
+        seed_real_random(rec["key_seed"])
+        me = MockIPv8(Peer(key(0)), DHTCommunity)
+        overlay = me.overlay
+        strategy = PingChurn(overlay, ping_interval=10 ** 12)
+        npeers = rec["peers"]
+        others = [MockIPv8(Peer(key(1 + i)), DHTCommunity) for i in range(npeers)]
+        addr = {i: UDPv4Address(*rec["addresses"][i]) for i in range(npeers)}
+        sinks = []
+        verdict = None
+        try:
+            for idx, op in enumerate(rec["ops"]):
+                kind = op[0]
+                if kind == "request":       # a signed ping-request of peer i arrives from its current address
+                    i = op[1]
+                    sinks.append(MockEndpoint(addr[i], addr[i]))
+                    sinks[-1].open()
+                    packet = others[i].overlay.ezr_pack(PingRequestPayload.msg_id, PingRequestPayload(idx % 65000))
+                    overlay.on_packet((addr[i], packet))
+                elif kind == "discover":    # the peer is introduced to us (on_node_discovered -> ping -> ...) or asks directly
+                    i = op[1]
+                    overlay.get_requesting_node(Peer(others[i].my_peer.public_key, addr[i]))
+                elif kind == "churn":
+                    strategy.take_step()
+                elif kind == "move":        # peer i continues from another address
+                    addr[op[1]] = UDPv4Address(*op[2])
+                elif kind == "move-self":   # what Community.on_introduction_response does when our public address changed
+                    overlay.my_estimated_wan = UDPv4Address(*op[1])
+                    overlay.my_peer.address = UDPv4Address(*op[1])
+                elif kind == "fail":        # a stored node stops answering
+                    for rt in overlay.routing_tables.values():
+                        nodes = [n for b in rt.trie.values() for n in b.nodes.values()]
+                        if nodes:
+                            nodes[op[1] % len(nodes)].failed = 2
+                if counts is not None:
+                    counts["community-op:" + kind] += 1
+                for rt in overlay.routing_tables.values():
+                    im = _table_view(routing, rt)
+                    im.check_tree(f"community op {idx} ({kind})")
+                    if im.fail is None and (kind in ("churn", "move-self") or idx % 7 == 0):
+                        nodes = im.all_nodes()
+                        for t in ([nodes[idx % len(nodes)].id] if nodes else []) + [rt.my_node_id]:
+                            live, want = im.brute_closest(int.from_bytes(t, "big"), 8, None)
+                            got = rt.closest_nodes(t, max_nodes=8)
+                            if len(got) != len(want) or any(a is not b for a, b in zip(got, want)):
+                                im._fail("RoutingTable.closest_nodes:not-k-closest",
+                                         f"community op {idx} ({kind}): closest_nodes returns {len(got)} nodes that are not the 8 nearest live ones")
+                    if im.fail is not None:
+                        verdict = (im.fail[0], im.fail[1] + " [routing table inside a real DHTCommunity]")
+                        break
+                    if counts is not None:
+                        counts["community-table-buckets:%s" % min(len(im.keys()), 9)] += 1
+                if verdict:
+                    break
+        finally:
+            for s_ in sinks:
+                s_.close()
+            for o in [me, *others]:
+                await o.stop()
+        return verdict
+    loop = asyncio.new_event_loop()
+    try:
+        return loop.run_until_complete(main())
+    finally:
+        loop.close()
+
+
+def community_histories(ctx: Ctx, n: int):
+    import collections
+    rng = ctx.rng
+
+    def rand_addr():
+        return [f"{rng.randrange(1, 223)}.{rng.randrange(0, 256)}.{rng.randrange(0, 256)}.{rng.randrange(1, 255)}", rng.randrange(1024, 65000)]
+    for s in range(n):
+        if len(ctx.failures) >= (1 if ctx.searching else 12):
+            break
+        npeers = rng.choice([16, 24, 40])
+        ops = []
+        for i in range(npeers):     # first contact of everybody: enough nodes for a few splits
+            ops.append((rng.choice(["request", "discover"]), i))
+        for _ in range(rng.randrange(30, 90)):
+            x = rng.random()
+            if x < 0.40:
+                ops.append(("request", rng.randrange(npeers)))
+            elif x < 0.55:
+                ops.append(("discover", rng.randrange(npeers)))
+            elif x < 0.70:
+                ops.append(("churn",))
+            elif x < 0.88:
+                ops.append(("move", rng.randrange(npeers), rand_addr()))
+            elif x < 0.94:
+                ops.append(("move-self", rand_addr()))
+            else:
+                ops.append(("fail", rng.randrange(1000)))
+        # closing: a churn step, everybody returns from a new address, our own address moves, everybody returns again
+        ops.append(("churn",))
+        for i in range(npeers):
+            ops += [("move", i, rand_addr()), ("request", i)]
+        ops += [("move-self", rand_addr())] + [("request", i) for i in range(npeers)] + [("churn",)]
+        rec = {"kind": "community", "key_seed": rng.getrandbits(24), "peers": npeers,
+               "addresses": [rand_addr() for _ in range(npeers)], "ops": [list(o) for o in ops]}
+        counts = collections.Counter()
+        try:
+            verdict = run_community(rec, counts)
+        except Exception as e:
+            if raised_by_harness(e):
+                raise
+            import traceback
+            tb = traceback.extract_tb(e.__traceback__)
+            where = next((f"{fr.filename.split('/ipv8/')[-1]}:{fr.lineno}" for fr in reversed(tb) if "/ipv8/" in fr.filename), "?")
+            verdict = ("DHTCommunity:raises", f"a community history raised {type(e).__name__}: {str(e)[:100]} (at {where})")
+        for k, v in counts.items():
+            ctx.count(k, v)
+        case(ctx, ("community", rec["key_seed"], len(ops)), nontrivial=True, n=len(ops))
+        if verdict is not None:
+            ctx.oracle_fail(verdict[0], verdict[1], rec)
+
+
 def run(ctx: Ctx):
     if ctx.replay_input is not None:
         return replay(ctx, ctx.replay_input)
@@ -1680,6 +1833,7 @@ def run(ctx: Ctx):
     if ctx.thorough():
         small_scope(ctx, 2, 5, 1, [0, 3 << (W - 2), (1 << W) - 1])
         small_scope(ctx, 4, 3, 3, [0, 9 << (W - 4)])
+    community_histories(ctx, ctx.scale(4, 40))
     bucket_direct(ctx, ctx.scale(60, 600))
     real_node_ids(ctx)
     refresh_two_tables(ctx, ctx.scale(6, 60))
@@ -1705,6 +1859,9 @@ def search(ctx: Ctx, reason: str):
     if ctx.failures:
         return
     real_node_ids(ctx)
+    community_histories(ctx, 6)
+    if ctx.failures:
+        return
     refresh_two_tables(ctx, 10)
     deep_walk_scenarios(ctx, 4, use_model=False)
     if ctx.failures:
@@ -1726,6 +1883,12 @@ def replay(ctx: Ctx, rec: dict):
             print("replay: property holds on this input")
         case(ctx, ("replay",), True)
         compare(ctx, lines, replies, {"kind": "routing", "me": r["me"], "m": r.get("m")})
+    elif r.get("kind") == "community":
+        verdict = run_community(r)
+        print("replay: property", f"FAILS: {verdict[0]}: {verdict[1]}" if verdict else "holds on this input")
+        if verdict:
+            ctx.oracle_fail(verdict[0], verdict[1], r)
+        case(ctx, ("replay",), True)
     elif r.get("kind") == "refresh2":
         from ipv8.dht import routing
         ims, stale = build_two_tables(r["me"], r["ids"], r["stale_draw"])
